@@ -20,6 +20,8 @@ var (
 	ErrPIDAlreadyExists = errors.New("astits: PID already exists")
 	ErrPCRPIDInvalid    = errors.New("astits: PCR PID invalid")
 	ErrNoFreePID        = errors.New("astits: no free PID")
+
+	ErrAdaptationFieldTooBig = errors.New("astits: adaptation field doesn't fit in a packet")
 )
 
 type Muxer struct {
@@ -234,11 +236,14 @@ func (m *Muxer) WriteData(d *MuxerData) (int, error) {
 		if writeAf {
 			pkt.AdaptationField = d.AdaptationField
 			// one byte for adaptation field length field
-			pktLen += 1 + int(calcPacketAdaptationFieldLength(d.AdaptationField))
+			pktLen += 1 + calcPacketAdaptationFieldSize(d.AdaptationField)
 			writeAf = false
 		}
 
 		bytesAvailable := m.packetSize - pktLen
+		if bytesAvailable < 0 {
+			return bytesWritten, ErrAdaptationFieldTooBig
+		}
 		if payloadStart {
 			pesHeaderLengthCurrent := pesHeaderLength + int(calcPESOptionalHeaderLength(d.PES.Header.OptionalHeader))
 			// d.AdaptationField with pes header are too big, we don't have space to write pes header
